@@ -181,6 +181,46 @@ def check_primary_loop(repo: Repo, ob) -> None:
         ob.violation(fi, fi.node, "no loop exit is taken when _shuttingdown is set after a task: the primary thread would never leave", construct="no-shutdown-exit")
 
 
+def check_shutdown_wakeup(ctx: Ctx, oid: str) -> None:
+    """trigger_shutdown sets the flag unconditionally and wakes an idle primary thread with an empty mailbox (shared: C09.j, C11.i)"""
+    repo = ctx.repo
+    ft = repo.func(f"{POOL}.trigger_shutdown")
+    cfgt = build_cfg(repo, ft, Oracle(repo, ft, precise=True))
+    alt = local_aliases(repo, ft)
+    with ctx.obligation(oid, "shutdown-flag-and-wakeup") as ob:
+        flag = [n for n in cfgt.nodes if n.kind == "stmt" and isinstance(n.ast, ast.Assign)
+                and unparse(n.ast.targets[0]) == "self._shuttingdown" and n.id in cfgt.live()]
+        ob.require(bool(flag), "_shuttingdown store missing")
+        for fl in flag:
+            v = repo.fold_in(fl.ast.value, ft)
+            ob.site(ft, fl.ast, "_shuttingdown = True unconditionally")
+            if v is not True or cfgt.guards(fl.id):
+                ob.violation(ft, fl.ast, "_shuttingdown is not set to True unconditionally")
+        p = cfgt.must_pass([cfgt.entry.id], [cfgt.exit.id], {f.id for f in flag})
+        if p is not None:
+            ob.violation(ft, ft.node, "a path through trigger_shutdown does not set _shuttingdown", path=cfgt.describe_path(p))
+        # idle primary (has primary, event clear) must be woken with mailbox None
+        base = Facts(repo, ft, alt)
+        base.set_atom(f"{READY} is None", False)
+        base.set_atom(f"{READY}.is_set()", False)
+        for path, facts in feasible_paths(repo, ft, cfgt, base, kill_on_store=False):
+            if path[-1][0] != cfgt.exit.id:
+                continue
+            stored_none = woke = False
+            for nid, _l in path:
+                n = cfgt.nodes[nid]
+                if n.kind == "stmt" and isinstance(n.ast, ast.Assign) and nexpr(repo, ft, n.ast.targets[0], alt) == MAILBOX \
+                        and isinstance(n.ast.value, ast.Constant) and n.ast.value.value is None:
+                    stored_none = True
+                if n.ast is not None and any(callee_attr(c) == "set" and nexpr(repo, ft, c.func.value, alt) == READY
+                                             for c in calls_in_node(n) if isinstance(c.func, ast.Attribute)):
+                    woke = stored_none and True
+            ob.site(ft, ft.node, "idle primary: mailbox=None then ready.set()", ok=woke)
+            if not woke:
+                ob.violation(ft, ft.node, "with an idle primary thread trigger_shutdown does not post None and wake it: integrate_as_primary_thread never returns",
+                             construct="idle-primary-not-woken", path=cfgt.describe_path(path))
+
+
 def check(ctx: Ctx) -> None:
     repo = ctx.repo
     ctx.decides = ("lock discipline of the pool state, no blocking under the pool lock, guarded one-slot mailbox, "
@@ -284,41 +324,7 @@ def check(ctx: Ctx) -> None:
         check_primary_loop(repo, ob)
 
     # ---- C09.j trigger_shutdown: flag + wake-up of an idle primary
-    ft = repo.func(f"{POOL}.trigger_shutdown")
-    cfgt = build_cfg(repo, ft, Oracle(repo, ft, precise=True))
-    alt = local_aliases(repo, ft)
-    with ctx.obligation("C09.j", "shutdown-flag-and-wakeup") as ob:
-        flag = [n for n in cfgt.nodes if n.kind == "stmt" and isinstance(n.ast, ast.Assign)
-                and unparse(n.ast.targets[0]) == "self._shuttingdown" and n.id in cfgt.live()]
-        ob.require(bool(flag), "_shuttingdown store missing")
-        for fl in flag:
-            v = repo.fold_in(fl.ast.value, ft)
-            ob.site(ft, fl.ast, "_shuttingdown = True unconditionally")
-            if v is not True or cfgt.guards(fl.id):
-                ob.violation(ft, fl.ast, "_shuttingdown is not set to True unconditionally")
-        p = cfgt.must_pass([cfgt.entry.id], [cfgt.exit.id], {f.id for f in flag})
-        if p is not None:
-            ob.violation(ft, ft.node, "a path through trigger_shutdown does not set _shuttingdown", path=cfgt.describe_path(p))
-        # idle primary (has primary, event clear) must be woken with mailbox None
-        base = Facts(repo, ft, alt)
-        base.set_atom(f"{READY} is None", False)
-        base.set_atom(f"{READY}.is_set()", False)
-        for path, facts in feasible_paths(repo, ft, cfgt, base, kill_on_store=False):
-            if path[-1][0] != cfgt.exit.id:
-                continue
-            stored_none = woke = False
-            for nid, _l in path:
-                n = cfgt.nodes[nid]
-                if n.kind == "stmt" and isinstance(n.ast, ast.Assign) and nexpr(repo, ft, n.ast.targets[0], alt) == MAILBOX \
-                        and isinstance(n.ast.value, ast.Constant) and n.ast.value.value is None:
-                    stored_none = True
-                if n.ast is not None and any(callee_attr(c) == "set" and nexpr(repo, ft, c.func.value, alt) == READY
-                                             for c in calls_in_node(n) if isinstance(c.func, ast.Attribute)):
-                    woke = stored_none and True
-            ob.site(ft, ft.node, "idle primary: mailbox=None then ready.set()", ok=woke)
-            if not woke:
-                ob.violation(ft, ft.node, "with an idle primary thread trigger_shutdown does not post None and wake it: integrate_as_primary_thread never returns",
-                             construct="idle-primary-not-woken", path=cfgt.describe_path(path))
+    check_shutdown_wakeup(ctx, "C09.j")
 
     # ---- C09.e Reply.run / get
     fr = repo.func("gateway_base.Reply.run")
